@@ -228,7 +228,9 @@ func (obj *Hmm) SetStartStates(states []int) error {
     }
     t1 := NewFloat64(math.Inf(-1))
     t2 := NewFloat64(math.Inf(-1))
-    obj.normalizePi(t1,t2)
+    if err := obj.normalizePi(t1,t2); err != nil {
+      return err
+    }
   }
   return nil
 }
@@ -248,7 +250,9 @@ func (obj *Hmm) SetFinalStates(states []int) error {
     obj.Tf = obj.Tr.CloneTransitionMatrix()
     t1 := NewFloat64(math.Inf(-1))
     t2 := NewFloat64(math.Inf(-1))
-    obj.normalizeTf(t1, t2)
+    if err := obj.normalizeTf(t1, t2); err != nil {
+      return err
+    }
   }
   return nil
 }
@@ -729,8 +733,12 @@ func (obj *Hmm) ImportConfig(config ConfigDistribution, t ScalarType) error {
   } else {
     *obj = *tmp
   }
-  obj.SetStartStates(startStates)
-  obj.SetFinalStates(finalStates)
+  if err := obj.SetStartStates(startStates); err != nil {
+    return err
+  }
+  if err := obj.SetFinalStates(finalStates); err != nil {
+    return err
+  }
 
   return nil
 }
